@@ -232,7 +232,42 @@ def observe_c01(scn: dict) -> dict | None:
             bad = cmp_vector(list(p["rhs"]), rtc.loc[t].to_numpy(), f"get_right_hand_side_time_course row t={t}")
             if bad:
                 return {**bad, "order": order, "point": p}
+        # a row is a state: two rows may carry the SAME time stamp (one row out per row in, in order).  The second
+        # row is the other state when nothing in the model reads the time, else the same state again.
+        import pandas as pd
+
+        second = tc[0] if _reads_time(c) else tc[1]
+        t0 = float(tc[0]["t"])
+        dup = pd.DataFrame([{v: float(fn_to_dict(q["y"])[v]) for v in c["vars"]} for q in (tc[0], second)],
+                           index=[t0, t0])[list(c["vars"])]
+        atc2 = m.get_args_time_course(dup)
+        ftc2 = m.get_fluxes_time_course(dup)
+        rtc2 = m.get_right_hand_side_time_course(atc2)
+        for form, tab in (("get_args_time_course", atc2), ("get_fluxes_time_course", ftc2),
+                          ("get_right_hand_side_time_course", rtc2)):
+            if len(tab) != 2 or [float(x) for x in tab.index] != [t0, t0]:
+                return {"what": f"{form}: a table with two rows at the same time stamp does not come back with two rows",
+                        "rows_in": 2, "index_out": [float(x) for x in tab.index], "order": order}
+        for j, q in enumerate((tc[0], second)):
+            e_args = {k: v for k, v in fn_to_dict(q["args"]).items() if k != "time"}
+            bad = cmp_table(e_args, atc2.iloc[j].to_dict(), f"get_args_time_course row {j} of a repeated time stamp") \
+                or cmp_table(fn_to_dict(q["fluxes"]), ftc2.iloc[j].to_dict(), f"get_fluxes_time_course row {j} of a repeated time stamp") \
+                or cmp_vector(list(q["rhs"]), rtc2.iloc[j].to_numpy(), f"get_right_hand_side_time_course row {j} of a repeated time stamp")
+            if bad:
+                return {**bad, "order": order, "point": q}
     return None
+
+
+def _reads_time(c: dict) -> bool:
+    calls = [d["args"] for d in c["der"].values()] + [d["args"] for d in c.get("ro", {}).values()]
+    for r in c["rxn"].values():
+        calls.append(r["args"])
+        calls += [co["args"] for co in r["st"].values() if co["k"] == "calc"]
+    for sr in c.get("sur", {}).values():
+        calls.append(sr["args"])
+        calls += [co["args"] for row in sr["st"].values() for co in row.values() if co["k"] == "calc"]
+    calls += [v["args"] for v in list(c["init"].values()) + list(c["pars"].values()) if v["k"] == "ia"]
+    return any("time" in a for a in calls)
 
 
 def observe_c13(scn: dict) -> dict | None:
